@@ -193,8 +193,8 @@ fn scaled_sweep(ctx: &Ctx, cfgs: &[Prepared]) {
                 let inp = input.clone();
                 let sc = s.cloned();
                 ctx.violation(
-                    format!("{label}: {msg}"),
-                    json!({"cfg": cfg, "input_hex": hex(&input), "input_lossy": lossy(&input[..input.len().min(120)]), "sched": sc}),
+                    msg,
+                    json!({"cfg": cfg, "document": label, "input_hex": hex(&input), "input_lossy": lossy(&input[..input.len().min(120)]), "sched": sc}),
                     &|| {
                         let p2 = Prepared::new(cfg.clone()).unwrap();
                         check(&p2, &inp, sc.as_ref())
